@@ -829,7 +829,7 @@ Definition ref_step (rs : rstate) (o : op) : option (rstate * result) :=
   | ODetach x => ret (ref_detach f x) (RNodes [x])
   | OReplace p c content =>
     match index_of c (kids_ids f p) with
-    | None => None
+    | None => if live f p && live f c then Some (rs, RErr) else None   (* "child not-found" *)
     | Some k =>
       if all_distinct (c :: content)
          && forallb (fun x => negb (mem x (kids_ids f p))) content
@@ -1090,6 +1090,51 @@ Definition clone_ok (rs rs' : rstate) (o : op) : bool :=
   | _ => true
   end.
 
+(* After an edit outside the reference's domain the comparison starts again from
+   the implementation's own state, when that state is a forest: the trees hanging
+   off the parentless objects, rebuilt from the pictures in the view and checked
+   against them (no id twice, every node is the cell pictured). *)
+Fixpoint build_t (fuel : nat) (cells : list (id * cell)) (i : id) : option tree :=
+  match fuel with
+  | O => None
+  | S f =>
+    match lookup cells i with
+    | None => None
+    | Some c =>
+      match (fix go (l : list id) : option forest :=
+               match l with
+               | [] => Some F0
+               | x :: l' => match build_t f cells x, go l' with
+                            | Some t, Some r => Some (F1 t r)
+                            | _, _ => None
+                            end
+               end) (c_kids c) with
+      | Some k => Some (T i (c_data c) k)
+      | None => None
+      end
+    end
+  end.
+Fixpoint build_roots (fuel : nat) (cells : list (id * cell)) (l : list id) : option forest :=
+  match l with
+  | [] => Some F0
+  | x :: l' => match build_t fuel cells x, build_roots fuel cells l' with
+               | Some t, Some r => Some (F1 t r)
+               | _, _ => None
+               end
+  end.
+Definition resync (v : view) (o : obs) : option rstate :=
+  match build_roots (S (N.to_nat (o_count o))) (v_cells v) (o_roots o) with
+  | None => None
+  | Some f =>
+    if all_distinct (ids_f f) &&
+       forallb (fun i => match cell_f None f i, lookup (v_cells v) i with
+                         | Some c, Some c' => cell_eqb c c'
+                         | _, _ => false
+                         end) (ids_f f) &&
+       forallb (fun i => (i <? o_count o)%N) (ids_f f)
+    then Some (mkR f (o_count o)) else None
+  end.
+
 Definition is_lookup (o : op) : bool :=
   match o with
   | OGetChild _ _ _ | OGetChildren _ _ _ | OChildAtPath _ _ | OChildrenAtPath _ _
@@ -1104,7 +1149,10 @@ Fixpoint spec_from (rs : rstate) (v : view) (steps : list (op * obs)) : bool :=
     let v' := view_add v ob in
     match ref_step rs o with
     | None => if is_lookup o then spec_from rs v' rest   (* no claim about this lookup *)
-              else true            (* an edit outside the reference's domain: no claim from here on *)
+              else match resync v' ob with               (* no claim about this edit; *)
+                   | Some rs2 => spec_from rs2 v' rest    (* go on from the state it left *)
+                   | None => true                         (* ... unless that is not a forest *)
+                   end
     | Some (rs', r) =>
       result_eqb r (o_res ob) && view_meets_reference rs' v' ob && clone_ok rs rs' o &&
       spec_from rs' v' rest
